@@ -719,6 +719,18 @@ def r2_7(ctx):
             n += 1
             v = strip_refs(lm[0][1][2])
             ok = len(pts) == 2 and v[0] == "agg" and v[2] == "Some" and strip_refs(v[3][0][3][0]) == ("arg", pts[0]) and strip_refs(v[3][0][3][1]) == ("arg", pts[1])
+            if not ok and "::{closure#" in b.name and v[0] == "agg" and v[2] == "Some":
+                # the successors are finished in a closure (`extend(KINDS.iter().map(|k| ..))`): (start, target)
+                # are captures of the enclosing function's parameters
+                from .hash import closure_translator
+                ct = closure_translator(ctx.facts, b.name)
+                if ct is not None:
+                    pfn, pb, cloc, tr = ct
+                    ppts = [i for i in range(1, pb.arg_count + 1) if pb.local_ty(i) == "board::Point"]
+                    tv = tr(v)
+                    if tv is not None and len(ppts) == 2:
+                        ok = canon(tv[3][0][3][0]) == canon(("arg", ppts[0])) and canon(tv[3][0][3][1]) == canon(("arg", ppts[1]))
+                        pts = pts if len(pts) == 2 else []
             ctx.ob("%s:last_move=(start,target)" % site.name, ok, b.where(lm[0][0]),
                    "promotion successor names (start, target) as handed in by the caller%s" % (
                        "" if ok else ": NOT so - the origin square of a promotion cannot be derived from the target (a capturing pawn arrives from the neighbouring file), it has to be the caller's from-square: `%s`" % show_expr(v, b)[:80]))
